@@ -225,11 +225,12 @@ func runCSPTPServerIP(ctx context.Context, log *slog.Logger,
 				eConn.mu.Unlock()
 				continue
 			}
-			cTxTime0, id, err := udp.ReadTXTimestamp(eConn.c)
+			cTxTime0, id, err := udp.ReadTXTimestampWithID(eConn.c, eConn.txid)
 			if err != nil {
 				cTxTime0 = timebase.Now()
 				log.LogAttrs(ctx, slog.LevelError, "failed to read packet tx timestamp",
 					slog.Any("error", err))
+				eConn.txid++
 			} else if id != eConn.txid {
 				cTxTime0 = timebase.Now()
 				log.LogAttrs(ctx, slog.LevelError, "failed to read packet tx timestamp",
@@ -304,11 +305,12 @@ func runCSPTPServerIP(ctx context.Context, log *slog.Logger,
 				gConn.mu.Unlock()
 				continue
 			}
-			cTxTime1, id, err := udp.ReadTXTimestamp(gConn.c)
+			cTxTime1, id, err := udp.ReadTXTimestampWithID(gConn.c, gConn.txid)
 			if err != nil {
 				cTxTime1 = timebase.Now()
 				log.LogAttrs(ctx, slog.LevelError, "failed to read packet tx timestamp",
 					slog.Any("error", err))
+				gConn.txid++
 			} else if id != gConn.txid {
 				cTxTime1 = timebase.Now()
 				log.LogAttrs(ctx, slog.LevelError, "failed to read packet tx timestamp",
